@@ -1701,7 +1701,9 @@ impl Gen {
             delay_p: *c.pick(&[0.0, 0.2, 0.5]),
             fail_p: *c.pick(&[0.0, 0.0, 0.0, 0.05, 0.2]),
         };
-        let flood = thorough && matches!(focus, "C04" | "C05" | "C11") && c.one_in(std::env::var("VERIF_FLOOD_ONE_IN").ok().and_then(|s| s.parse().ok()).unwrap_or(10_000));
+        // one run in 10 000 (thorough: C04, C05, C11) / 40 000 (quick: C11 only, a handful of runs per check, each
+        // some seconds on one of the sixteen workers) executes more than 65 536 trades for one broker
+        let flood = (if thorough { matches!(focus, "C04" | "C05" | "C11") } else { focus == "C11" }) && c.one_in(std::env::var("VERIF_FLOOD_ONE_IN").ok().and_then(|s| s.parse().ok()).unwrap_or(if thorough { 10_000 } else { 40_000 }));
         Gen { rng: root.fork("ops"), cfg, issued: 0, next_tag: 1, queue: std::collections::VecDeque::new(), flood, srng: root.fork("stranger-ops") }
     }
 
